@@ -239,6 +239,26 @@ def full_merge_cases():
     return out
 
 
+def copy_then_write_cases():
+    """every COPYING operation applied to a source that is empty but owns storage (reserved or cleared array / object,
+    the empty string), followed by a write into the copy (append, indexed write, keyed write, Insert) and a read-back."""
+    sources = [["rsv 1 3 1"], ["rsv 1 3 2"], ["rsv 1 3 5"], ["rsv 1 2 1"], ["rsv 1 2 4"], ["app 1 n1", "app 1 sa120", "clr 1"],
+               ["set 1/ka97 n1", "set 1/ka98 sa120", "clr 1"], ["set 1 sa-"], ["set 1 sh-"]]
+    copies = [("cpy 0 1 a", "0"), ("cpy 0 1 b", "0"), ("cpy 0/ka99 1 a", "0/ka99"), ("cpy 0/ia1 1 b", "0/ia1"),
+              ("arr 0 1 a", "0"), ("arr 0 1 b", "0"), ("obj 0 1 a", "0"), ("obj 0 1 b", "0"),
+              ("cop ac a 0 1", "0"), ("cop cc a 0 1", "0"), ("cop ac o 0 1", "0"), ("cop cc o 0 1", "0"), ("cop ac s 0 1", "0"),
+              ("cop cc s 0 1", "0"), ("cop pc a 0 1", "0/ia0"), ("cop pc o 0 1", "0/ia0"), ("cop pc s 0 1", "0/ia0"),
+              ("apv 0 1 b", "0/ia0"), ("mrg 0 1 b", "0"), ("apa 0 1 b", "0/ia0"), ("apo 0 1 b", "0/ia0"),
+              ("cop ac a 0/ka99 1", "0/ka99"), ("cop ac o 0/ia2 1", "0/ia2")]
+    writes = ["app %s n1", "set %s/ia0 n2", "set %s/ia3 T", "set %s/ka97 n3", "ins %s 98 sa121", "app %s sa122", "mrg %s 2 b", "cmp %s"]
+    out = []
+    for src in sources:
+        for cp, where in copies:
+            for w in writes:
+                out.append(["app 2 n7"] + src + [cp, w % where, "cpy 3 %s a" % where])
+    return out
+
+
 def alias_relation(d, s):
     if d == s:
         return "self"
